@@ -298,6 +298,10 @@ class TNCore(SessionBase):
         if exc is None:
             for p in set(list(owners) + (['C02'] if c02_listed else [])):
                 self.judged[(p, 'raised')] += 1
+            if any(o.retired for o in operands if o not in targets):
+                # an operand was left unusable by the call (already reported above): nothing further can be judged
+                self.pool = [x for x in self.pool if not x.retired]
+                return 'corrupted', None
             return 'ok', res
         if isinstance(exc, InjectedBackendFailure) or env.raised is not None and exc is env.raised:
             self.probe('raise_fired_in_op')
